@@ -331,6 +331,10 @@ def run(ctx):
         tags = set()
         if st["op"] in ("make", "pickle") and st["route"] not in ("int", "epsgstr", "authstr"):
             tags.add("spec_is_wkt_json_or_pyproj_object")
+        # a pickle carries the source's string form, and unpickling re-runs CRS(<that text>): the finding's input is WKT / PROJJSON TEXT - decided
+        # by what was observed to travel, not only by the route the model expected (the two differ where the model's key table and pyproj disagree)
+        if st["op"] == "pickle" and ev["ob"].get("payload") == "text":
+            tags.add("spec_is_wkt_json_or_pyproj_object")
         ctx.record({"st": st, "tid": ev["tid"], "k": ev["k"]}, v, op="history:" + st["op"], tags=tags, conformance=True,
                    nontrivial=st["op"] in ("make", "copy", "pickle", "transform"), sample={"step": st, "observed": ev["ob"]})
     ctx.traces_validated = len(hists)
